@@ -15,6 +15,7 @@ import (
 	"hash/crc32"
 	"io"
 	"log"
+	"math"
 )
 
 // ByteBlockSource is an in-memory block source.
@@ -470,6 +471,8 @@ func (r *Reader) seekIndexed(want record) (*tableIter, error) {
 		return nil, err
 	}
 
+	// offset of the index block the previous entry came from
+	prevOff := uint64(math.MaxUint64)
 	for {
 		var rec indexRecord
 		ok, err := idxIter.Next(&rec)
@@ -480,11 +483,15 @@ func (r *Reader) seekIndexed(want record) (*tableIter, error) {
 			return nil, err
 		}
 
-		if rec.Offset >= idxIter.blockOff {
+		if rec.Offset >= idxIter.blockOff || idxIter.blockOff >= prevOff {
 			// An index block is written after the blocks it
-			// indexes; anything else would let us loop.
+			// indexes, so the descent moves towards the
+			// start of the file, also when Next has rolled
+			// over into the following index block; anything
+			// else would let us loop.
 			return nil, fmtError
 		}
+		prevOff = idxIter.blockOff
 		tabIter, err := r.tabIterAt(rec.Offset, blockTypeAny)
 		if err != nil {
 			return nil, err
